@@ -10,6 +10,7 @@
       {let $x: e /}, {let $x}…{/let},
       {call} without a data attribute, with data="all", with data="$m" (a variable) or data="[k₁: e₁, …]" (a
         map literal), with value params and content params ({param k}…{/param}),
+      {msg} without a message bundle (text, placeholders — commands of the fragment or HTML tags —, {plural}),
       header params
       — nested arbitrarily, templates calling templates to any depth (`render_refines_lexical_partial`),
       with expressions of the scalar operator fragment of Props/C01.lean,
@@ -32,7 +33,8 @@
 
   Still outside (exactly): expressions beyond Props/C01's scalar operator fragment (accesses, collection
   literals other than a loop's list literal and a call's map literal, functions other than a loop's range —
-  hence also `index` / `isFirst` / `isLast`), collections nested in collections, print directives, {msg}.  Those are covered by the scoping theorems of Props/C02.lean and by
+  hence also `index` / `isFirst` / `isLast`), collections nested in collections, print directives, {msg} with a message bundle (the
+  specification leaves the translated text open: `hasBundle` ⇒ unspec).  Those are covered by the scoping theorems of Props/C02.lean and by
   the Spec.render oracle of the C02exec correspondence.
 -/
 import SoyVerif.Lemmas.ExecRefine
@@ -82,6 +84,7 @@ def cfrag (coll : Bytes → Bool) : Cmd → Bool
   | .switch _ v cases => frag coll v && casesFrag coll cases
   | .forc _ _ e body none => listFrag coll e && bfrag coll body
   | .forc _ _ e body (some b) => listFrag coll e && bfrag coll body && bfrag coll b
+  | .msg _ _ _ _ _ body => partsFrag coll body
   | .call _ _ false none ps => paramsFrag coll ps
   | .call _ _ true none ps => paramsFrag coll ps
   | .call _ _ false (some d) ps => dataFrag coll d && paramsFrag coll ps
@@ -100,6 +103,18 @@ def condsFrag (coll : Bytes → Bool) : CondList → Bool
 def casesFrag (coll : Bytes → Bool) : CaseList → Bool
   | .nil => true
   | .cons _ vs b r => vs.all (frag coll) && bfrag coll b && casesFrag coll r
+/-- the parts of a {msg}: text, placeholders (commands of the fragment, HTML tags), plurals -/
+def partsFrag (coll : Bytes → Bool) : MsgParts → Bool
+  | .nil => true
+  | .text _ _ r => partsFrag coll r
+  | .ph _ _ b r => phFrag coll b && partsFrag coll r
+  | .plural _ _ v cases _ d r => frag coll v && plFrag coll cases && partsFrag coll d && partsFrag coll r
+def phFrag (coll : Bytes → Bool) : MsgPhBody → Bool
+  | .htmlTag _ _ => true
+  | .cmd c => cfrag coll c
+def plFrag (coll : Bytes → Bool) : PluralCases → Bool
+  | .nil => true
+  | .cons _ _ _ b r => partsFrag coll b && plFrag coll r
 /-- the params of a call: values of the expression fragment, content blocks of the command fragment -/
 def paramsFrag (coll : Bytes → Bool) : ParamList → Bool
   | .nil => true
@@ -453,7 +468,7 @@ theorem evalIn_range_sim {g : GEnv} {ctx : Scope} {st : St} {env : Spec.Eval.Env
 section
 variable {coll : Bytes → Bool} (g : GEnv) (hob : g.oblig = []) (esc : Bool) (call : Registry.Tmpl → Run) (hcall : ∀ t, GoodRun (call t))
   (reg : Registry.Reg) (hasBundle : Bool) (entry : Spec.Eval.Binds) (scall : Registry.Tmpl → Spec.Eval.CallEnv → Out Bytes)
-  (hreg : g.reg = reg)
+  (hreg : g.reg = reg) (hmsg : hasBundle = false → g.msgs = none)
   (hcs : ∀ (t : Registry.Tmpl), t ∈ reg → ∀ (cctx : Scope) (s2 : St) (ce : Spec.Eval.CallEnv),
     Rel coll g ce.entry cctx s2 { vars := ce.entry, loops := [], ij := ce.ij, globals := ce.globals } → Own cctx s2 → ScopeOk cctx s2 →
     AgreeT s2 (call t cctx s2) (scall t ce))
@@ -990,7 +1005,7 @@ theorem call_core (callee : Registry.Tmpl) (hmem : callee ∈ reg) (ps : ParamLi
       simp only [Agree]
       exact ⟨hct.1, by show bufBytes (call callee cctx s2).st.out = _; rw [hct.2, hout2], hrel⟩
 
-include hob hcall hreg hcs in
+include hob hcall hreg hmsg hcs in
 mutual
 theorem cmd_agree : (c : Cmd) → cfrag coll c = true → ∀ (ctx : Scope) (st : St) (env : Spec.Eval.Env),
     Rel coll g entry ctx st env → Own ctx st → ScopeOk ctx st →
@@ -1144,7 +1159,25 @@ theorem cmd_agree : (c : Cmd) → cfrag coll c = true → ∀ (ctx : Scope) (st 
           cases hh : heapSet (walkBlockOf (execBody g esc call body) (f :: r) { st with out := [] }).st.heap f.ref name (.str out) with
           | mk h' ro => rw [hh] at hs; simp only [Option.some.injEq] at hs; rw [← hs]
         simp [this]
-  | .msg .., hf, _, _, _, _, _, _ => by simp [cfrag] at hf
+  | .msg _ id _ _ _ body, hf, ctx, st, env, hr, hown, hok => by
+    simp only [cfrag] at hf
+    rw [execCmd, Spec.Eval.renderCmd]
+    cases hB : hasBundle with
+    | true => simp [Agree]
+    | false =>
+      simp only [hmsg hB, Bool.false_eq_true, if_false]
+      -- the message is one block: a fresh frame around its parts
+      have hb := block_agree g entry (walkMsgBody g esc call body)
+        (fun env' => (Spec.Eval.renderParts reg hasBundle esc entry scall body env').bind fun r => .val r.1)
+        (walkMsgBody_good g esc call hcall body)
+        (fun ctx' st' env' hr' hown' hok' =>
+          ⟨Spec.Eval.renderParts reg hasBundle esc entry scall body env', parts_agree body hf ctx' st' env' hr' hown' hok', rfl⟩)
+        ctx st env hr hok
+      rw [hB] at hb
+      cases hv : Spec.Eval.renderParts reg false esc entry scall body env with
+      | unspec => simp [Spec.Eval.Out.bind, Agree]
+      | error => rw [hv] at hb; simpa [Spec.Eval.Out.bind, Agree, AgreeB] using hb
+      | val q => rw [hv] at hb; simpa [Spec.Eval.Out.bind, Agree, AgreeB] using hb
   | .forc p0 var E (.mk bp cs) none, hf, ctx, st, env, hr, hown, hok => by
     simp only [cfrag, bfrag, Bool.and_eq_true] at hf
     refine forc_core g esc call hcall reg hasBundle entry scall p0 var E (.mk bp cs) none ctx st env hr hok ?_
@@ -1549,10 +1582,134 @@ theorem params_agree : (ps : ParamList) → paramsFrag coll ps = true →
           refine ⟨ih.1, ?_, by rw [ih.2.2, Refine.set_out hs, hout1]⟩
           have : (R ++ [(key, .str out)]) ++ B0 = R ++ (key, .str out) :: B0 := by simp
           rw [this]; exact ih.2.1
+/-- the parts of a {msg} without a bundle: walked in order -/
+theorem parts_agree : (ps : MsgParts) → partsFrag coll ps = true → ∀ (ctx : Scope) (st : St) (env : Spec.Eval.Env),
+    Rel coll g entry ctx st env → Own ctx st → ScopeOk ctx st →
+    Agree coll g entry ctx st (walkMsgBody g esc call ps ctx st) (Spec.Eval.renderParts reg hasBundle esc entry scall ps env)
+  | .nil, _, ctx, st, env, hr, _, _ => by
+    rw [walkMsgBody, Spec.Eval.renderParts]; exact ⟨rfl, by simp, hr⟩
+  | .text p t rest, hf, ctx, st, env, hr, hown, hok => by
+    simp only [partsFrag] at hf
+    rw [walkMsgBody, Spec.Eval.renderParts]
+    have ih := parts_agree rest hf ctx (write (atNode st p) t) env (hr.of_heap rfl)
+      ((hown.atNode p).ext (write_ext (fun _ => False) _ t)) hok
+    cases hv : Spec.Eval.renderParts reg hasBundle esc entry scall rest env with
+    | unspec => simp [Spec.Eval.Out.bind, Agree]
+    | error => rw [hv] at ih; simpa [Spec.Eval.Out.bind, Agree] using ih
+    | val q =>
+      obtain ⟨o, env'⟩ := q
+      rw [hv] at ih
+      simp only [Agree] at ih
+      simp only [Spec.Eval.Out.bind, Agree]
+      refine ⟨ih.1, ?_, ih.2.2⟩
+      rw [ih.2.1, bufBytes_write]
+      show (bufBytes st.out ++ t) ++ o = bufBytes st.out ++ (t ++ o)
+      simp
+  | .ph _ _ b rest, hf, ctx, st, env, hr, hown, hok => by
+    simp only [partsFrag, Bool.and_eq_true] at hf
+    rw [walkMsgBody, Spec.Eval.renderParts]
+    have h1 := ph_agree b hf.1 ctx st env hr hown hok
+    have hg := execPh_good g esc call hcall b ctx st hown
+    cases hv : Spec.Eval.renderPh reg hasBundle esc entry scall b env with
+    | unspec => simp [Spec.Eval.Out.bind, Agree]
+    | error => rw [hv] at h1; simp only [Agree] at h1; simp [Spec.Eval.Out.bind, Agree, h1]
+    | val q =>
+      obtain ⟨o1, env1⟩ := q
+      rw [hv] at h1
+      simp only [Agree] at h1
+      obtain ⟨hcls, hbytes, hrel⟩ := h1
+      simp only [Spec.Eval.Out.bind, hcls, hg.ctx_eq hcls]
+      have hok1 : ScopeOk ctx (execPh g esc call b ctx st).st := fun f hf' => Nat.lt_of_lt_of_le (hok f hf') hg.ext.len
+      have h2 := parts_agree rest hf.2 ctx _ env1 hrel (hown.ext hg.ext) hok1
+      cases hv2 : Spec.Eval.renderParts reg hasBundle esc entry scall rest env1 with
+      | unspec => simp [Agree]
+      | error => rw [hv2] at h2; simpa [Agree] using h2
+      | val q2 =>
+        rw [hv2] at h2
+        simp only [Agree] at h2 ⊢
+        exact ⟨h2.1, by rw [h2.2.1, hbytes]; simp, h2.2.2⟩
+  | .plural _ _ value cases _ dflt rest, hf, ctx, st, env, hr, hown, hok => by
+    simp only [partsFrag, Bool.and_eq_true] at hf
+    obtain ⟨⟨⟨hfv, hfc⟩, hfd⟩, hfr⟩ := hf
+    obtain ⟨h1, h2⟩ := evalIn_sim hr value hfv
+    rw [walkMsgBody, Spec.Eval.renderParts]
+    cases hv : Spec.Eval.eval env value with
+    | unspec => simp [Spec.Eval.Out.bind, Agree]
+    | error => simp [Spec.Eval.Out.bind, Agree, h2 hv]
+    | val v =>
+      obtain ⟨mv, st1, he, habs, hsc, hheap, hout⟩ := h1 v hv
+      subst habs
+      have hr1 : Rel coll g entry ctx st1 env := hr.of_heap hheap
+      have hok1 : ScopeOk ctx st1 := fun f hf' => by rw [hheap]; exact hok f hf'
+      have hown1 : Own ctx st1 := hown.ext (evalIn_ext (fun _ => False) he)
+      simp only [Spec.Eval.Out.bind, he]
+      cases mv with
+      | int i =>
+        simp only [absV]
+        have hd : ∀ ctx' st' env', Rel coll g entry ctx' st' env' → Own ctx' st' → ScopeOk ctx' st' →
+            Agree coll g entry ctx' st' (walkMsgBody g esc call dflt ctx' st')
+              (Spec.Eval.renderParts reg hasBundle esc entry scall dflt env') :=
+          fun ctx' st' env' hr' hown' hok' => parts_agree dflt hfd ctx' st' env' hr' hown' hok'
+        have hp1 := plural_agree cases hfc (walkMsgBody g esc call dflt)
+          (Spec.Eval.renderParts reg hasBundle esc entry scall dflt) hd i.toInt ctx st1 env hr1 hown1 hok1
+        have hg := walkPluralCases_good g esc call hcall cases (walkMsgBody g esc call dflt)
+          (walkMsgBody_good g esc call hcall dflt) i.toInt ctx st1 hown1
+        cases hv1 : Spec.Eval.renderPlural reg hasBundle esc entry scall cases
+            (Spec.Eval.renderParts reg hasBundle esc entry scall dflt) i.toInt env with
+        | unspec => simp [Agree]
+        | error => rw [hv1] at hp1; simp only [Agree] at hp1; simp [Agree, hp1]
+        | val q =>
+          obtain ⟨o1, env1⟩ := q
+          rw [hv1] at hp1
+          simp only [Agree] at hp1
+          obtain ⟨hcls, hbytes, hrel⟩ := hp1
+          simp only [hcls, hg.ctx_eq hcls]
+          have hok2 : ScopeOk ctx (walkPluralCases g esc call cases (walkMsgBody g esc call dflt) i.toInt ctx st1).st :=
+            fun f hf' => Nat.lt_of_lt_of_le (hok1 f hf') hg.ext.len
+          have h3 := parts_agree rest hfr ctx _ env1 hrel (hown1.ext hg.ext) hok2
+          cases hv2 : Spec.Eval.renderParts reg hasBundle esc entry scall rest env1 with
+          | unspec => simp [Agree]
+          | error => rw [hv2] at h3; simpa [Agree] using h3
+          | val q2 =>
+            rw [hv2] at h3
+            simp only [Agree] at h3 ⊢
+            exact ⟨h3.1, by rw [h3.2.1, hbytes, hout]; simp, h3.2.2⟩
+      | undefined => simp [absV, Agree]
+      | null => simp [absV, Agree]
+      | bool _ => simp [absV, Agree]
+      | float _ => simp [absV, Agree]
+      | str _ => simp [absV, Agree]
+      | list _ _ => simp [Scalar] at hsc
+      | map _ _ => simp [Scalar] at hsc
+/-- a placeholder: an HTML tag (its text) or a command -/
+theorem ph_agree : (b : MsgPhBody) → phFrag coll b = true → ∀ (ctx : Scope) (st : St) (env : Spec.Eval.Env),
+    Rel coll g entry ctx st env → Own ctx st → ScopeOk ctx st →
+    Agree coll g entry ctx st (execPh g esc call b ctx st) (Spec.Eval.renderPh reg hasBundle esc entry scall b env)
+  | .htmlTag p text, _, ctx, st, env, hr, _, _ => by
+    rw [execPh, Spec.Eval.renderPh]
+    exact ⟨rfl, bufBytes_write _ text, hr.of_heap rfl⟩
+  | .cmd c, hf, ctx, st, env, hr, hown, hok => by
+    simp only [phFrag] at hf
+    rw [execPh, Spec.Eval.renderPh]
+    exact Agree.of_atNode (cmd_agree c hf ctx _ env (hr.of_heap rfl) (hown.atNode _) hok)
+/-- the cases of a {plural}: the first whose number equals the value, else the default -/
+theorem plural_agree : (cs : PluralCases) → plFrag coll cs = true → ∀ (dflt : Run) (sd : Spec.Eval.Env → Spec.Eval.ROut),
+    (∀ ctx st env, Rel coll g entry ctx st env → Own ctx st → ScopeOk ctx st → Agree coll g entry ctx st (dflt ctx st) (sd env)) →
+    ∀ (i : Int) (ctx : Scope) (st : St) (env : Spec.Eval.Env),
+    Rel coll g entry ctx st env → Own ctx st → ScopeOk ctx st →
+    Agree coll g entry ctx st (walkPluralCases g esc call cs dflt i ctx st) (Spec.Eval.renderPlural reg hasBundle esc entry scall cs sd i env)
+  | .nil, _, dflt, sd, hd, i, ctx, st, env, hr, hown, hok => by
+    rw [walkPluralCases, Spec.Eval.renderPlural]; exact hd ctx st env hr hown hok
+  | .cons _ v _ body rest, hf, dflt, sd, hd, i, ctx, st, env, hr, hown, hok => by
+    simp only [plFrag, Bool.and_eq_true] at hf
+    rw [walkPluralCases, Spec.Eval.renderPlural]
+    split
+    · exact parts_agree body hf.1 ctx st env hr hown hok
+    · exact plural_agree rest hf.2 dflt sd hd i ctx st env hr hown hok
 end
 
 
-include hob hcall hreg hcs in
+include hob hcall hreg hmsg hcs in
 /-- The walk of a template body refines the lexical semantics: on the fragment, whenever `Spec.renderBlock`
     yields text the model ends ok and has written exactly that text after what was written before;
     whenever it yields an error the model yields an error. -/
@@ -1565,14 +1722,14 @@ theorem exec_refines_lexical_partial (b : Block) (hf : bfrag coll b = true) (ctx
     | .unspec => True := by
   obtain ⟨p, cs⟩ := b
   simp only [bfrag] at hf
-  have h := Agree.of_atNode (cmds_agree g hob esc call hcall reg hasBundle entry scall hreg hcs cs hf ctx (atNode st p) env (hr.of_heap rfl) (hown.atNode p) hok)
+  have h := Agree.of_atNode (cmds_agree g hob esc call hcall reg hasBundle entry scall hreg hmsg hcs cs hf ctx (atNode st p) env (hr.of_heap rfl) (hown.atNode p) hok)
   rw [Spec.Eval.renderBlock, renderCmds_eq, execBody]
   cases hv : cmdsE esc reg hasBundle entry scall cs env with
   | unspec => simp [Spec.Eval.Out.bind]
   | error => rw [hv] at h; simpa [Spec.Eval.Out.bind, Agree] using h
   | val q => rw [hv] at h; simp only [Agree] at h; simpa [Spec.Eval.Out.bind] using ⟨h.1, h.2.1⟩
 
-include hob hcall hreg hcs in
+include hob hcall hreg hmsg hcs in
 /-- {foreach $x in E} over a list VALUE: for ANY list expression `E` whose evaluation agrees with the
     specification's in the current state (`hE` — e.g. a variable bound to a list of scalars,
     `list_variable_agrees`), the loop refines the lexical semantics: the body runs once per element in a
@@ -1590,7 +1747,7 @@ theorem foreach_over_value_refines (p0 : Nat) (var : Bytes) (E : Expr) (bp : Nat
           Spec.Eval.renderBlock reg hasBundle esc entry scall (.mk bp cs) env' = o.bind fun q => .val q.1 := by
       intro ctx' st' env' hr' hown' hok'
       refine ⟨cmdsE esc reg hasBundle entry scall cs env', ?_, ?_⟩
-      · rw [execBody]; exact Agree.of_atNode (cmds_agree g hob esc call hcall reg hasBundle entry scall hreg hcs cs hfb ctx' _ env' (hr'.of_heap rfl) (hown'.atNode _) hok')
+      · rw [execBody]; exact Agree.of_atNode (cmds_agree g hob esc call hcall reg hasBundle entry scall hreg hmsg hcs cs hfb ctx' _ env' (hr'.of_heap rfl) (hown'.atNode _) hok')
       · rw [Spec.Eval.renderBlock]; exact renderCmds_eq esc reg hasBundle entry scall cs env'
     rw [execCmd, Spec.Eval.renderCmd]
     cases hv : Spec.Eval.eval env E with
@@ -1644,7 +1801,8 @@ end
 def regFrag (coll : Bytes → Bool) (reg : Registry.Reg) : Prop := ∀ t ∈ reg, bfrag coll t.body = true
 
 /-- a template invocation refines the specification's, at every call depth -/
-theorem tmpl_refines (coll : Bytes → Bool) (g : GEnv) (hob : g.oblig = []) (hasBundle : Bool) (hfr : regFrag coll g.reg) :
+theorem tmpl_refines (coll : Bytes → Bool) (g : GEnv) (hob : g.oblig = []) (hasBundle : Bool)
+    (hmsg : hasBundle = false → g.msgs = none) (hfr : regFrag coll g.reg) :
     ∀ (fuel : Nat) (t : Registry.Tmpl), t ∈ g.reg → ∀ (cctx : Scope) (s2 : St) (ce : Spec.Eval.CallEnv),
       Rel coll g ce.entry cctx s2 { vars := ce.entry, loops := [], ij := ce.ij, globals := ce.globals } → Own cctx s2 → ScopeOk cctx s2 →
       AgreeT s2 (runTmpl g fuel t cctx s2) (Spec.Eval.renderTmpl g.reg hasBundle fuel t ce) := by
@@ -1655,7 +1813,7 @@ theorem tmpl_refines (coll : Bytes → Bool) (g : GEnv) (hob : g.oblig = []) (ha
     intro t ht cctx s2 ce hr hown hok
     rw [runTmpl, Spec.Eval.renderTmpl]
     have h := exec_refines_lexical_partial g hob (escapeOf t) (runTmpl g n) (runTmpl_good g n) g.reg hasBundle ce.entry
-      (Spec.Eval.renderTmpl g.reg hasBundle n) rfl ih t.body (hfr t ht) cctx (atNode s2 t.pos)
+      (Spec.Eval.renderTmpl g.reg hasBundle n) rfl hmsg ih t.body (hfr t ht) cctx (atNode s2 t.pos)
       { vars := ce.entry, loops := [], ij := ce.ij, globals := ce.globals } (hr.of_heap rfl) (hown.atNode _) hok
     have hesc : Spec.Eval.escapeOn t = escapeOf t := rfl
     rw [hesc]
@@ -1682,12 +1840,12 @@ theorem execute_some (g : GEnv) (name : Bytes) (data : Frame) (fuel : Nat) (t : 
 /-- `exec_refines_lexical` on the fragment, closed: for a registry whose templates are all in the fragment
     (raw text, print without directives, css, debugger, log, if/elseif/else, switch, foreach over a list
     literal, a range or a variable, let value / content, calls without a data attribute, with data="all",
-    with data="$m" or a map literal, with value and content params), data of scalars and — under the names `coll` —
+    with data="$m" or a map literal, with value and content params, msg without a bundle), data of scalars and — under the names `coll` —
     lists / maps of scalars, scalar globals, no obligatory directive: whenever `Spec.render` yields text, `execute` ends ok having written
     exactly that text; whenever it yields an error, `execute` fails. -/
 theorem render_refines_lexical_partial (coll : Bytes → Bool) (g : GEnv) (hob : g.oblig = []) (hfr : regFrag coll g.reg)
     (hgl : ∀ kv ∈ g.globals, Scalar kv.2 = true) (name : Bytes) (data : Frame) (hdata : ∀ kv ∈ data, OkAt coll kv.1 kv.2)
-    (fuel : Nat) (ij : Option Spec.Eval.Binds) (hasBundle : Bool) :
+    (fuel : Nat) (ij : Option Spec.Eval.Binds) (hasBundle : Bool) (hmsg : hasBundle = false → g.msgs = none) :
     match Spec.Eval.render g.reg (absK g.globals) ij hasBundle name (absK data) fuel with
     | .val out => (execute g name data fuel).cls = .ok ∧ (execute g name data fuel).chunks.flatten = out
     | .error => (execute g name data fuel).cls = .err ∨ (execute g name data fuel).cls = .panic
@@ -1755,7 +1913,7 @@ theorem render_refines_lexical_partial (coll : Bytes → Bool) (g : GEnv) (hob :
     have hok : ScopeOk [⟨1, false⟩, ⟨0, true⟩]
         { heap := [⟨data, true⟩, ⟨[], false⟩], out := [], next := freshBase g data, foreign := 0 } := by
       intro f hf; simp at hf; rcases hf with rfl | rfl <;> simp
-    have h := tmpl_refines coll g hob hasBundle hfr fuel t ht _ _ { entry := absK data, ij := ij, globals := absK g.globals } hrel hown hok
+    have h := tmpl_refines coll g hob hasBundle hmsg hfr fuel t ht _ _ { entry := absK data, ij := ij, globals := absK g.globals } hrel hown hok
     cases hv : Spec.Eval.renderTmpl g.reg hasBundle fuel t { entry := absK data, ij := ij, globals := absK g.globals } with
     | unspec => trivial
     | error =>
@@ -1803,7 +1961,7 @@ theorem rel0 : Rel noColl g0 env0.vars ctx0 st0 env0 := by
 example : bufBytes (execBody g0 true (fun _ ctx st => ⟨.fuelOut, ctx, st⟩) body0 ctx0 st0).st.out = [105, 110, 111, 117, 116] := by
   have hcall : ∀ t, GoodRun ((fun _ ctx st => ⟨.fuelOut, ctx, st⟩ : Registry.Tmpl → Run) t) :=
     fun _ ctx st _ => ⟨by simp, fun h => by simp at h, Ext.refl _ _⟩
-  have h := exec_refines_lexical_partial g0 rfl true _ hcall [] false env0.vars (fun _ _ => .unspec) rfl (fun _ _ _ _ _ _ _ _ => trivial) body0 (by decide) ctx0 st0 env0 rel0
+  have h := exec_refines_lexical_partial g0 rfl true _ hcall [] false env0.vars (fun _ _ => .unspec) rfl (fun _ => rfl) (fun _ _ _ _ _ _ _ _ => trivial) body0 (by decide) ctx0 st0 env0 rel0
     ⟨⟨1, false⟩, [⟨0, true⟩], ⟨[], false⟩, rfl, rfl, rfl⟩ (by intro f hf; simp [ctx0] at hf; rcases hf with rfl | rfl <;> simp [st0])
   have hs : Spec.Eval.renderBlock [] false true env0.vars (fun _ _ => .unspec) body0 env0 = .val [105, 110, 111, 117, 116] := by rfl
   rw [hs] at h
@@ -1820,7 +1978,7 @@ def body1 : Block :=
 example : bufBytes (execBody g0 true (fun _ ctx st => ⟨.fuelOut, ctx, st⟩) body1 ctx0 st0).st.out = [97, 98, 33, 111, 117, 116] := by
   have hcall : ∀ t, GoodRun ((fun _ ctx st => ⟨.fuelOut, ctx, st⟩ : Registry.Tmpl → Run) t) :=
     fun _ ctx st _ => ⟨by simp, fun h => by simp at h, Ext.refl _ _⟩
-  have h := exec_refines_lexical_partial g0 rfl true _ hcall [] false env0.vars (fun _ _ => .unspec) rfl (fun _ _ _ _ _ _ _ _ => trivial) body1 (by decide) ctx0 st0 env0 rel0
+  have h := exec_refines_lexical_partial g0 rfl true _ hcall [] false env0.vars (fun _ _ => .unspec) rfl (fun _ => rfl) (fun _ _ _ _ _ _ _ _ => trivial) body1 (by decide) ctx0 st0 env0 rel0
     ⟨⟨1, false⟩, [⟨0, true⟩], ⟨[], false⟩, rfl, rfl, rfl⟩ (by intro f hf; simp [ctx0] at hf; rcases hf with rfl | rfl <;> simp [st0])
   have hs : Spec.Eval.renderBlock [] false true env0.vars (fun _ _ => .unspec) body1 env0 = .val [97, 98, 33, 111, 117, 116] := by rfl
   rw [hs] at h
@@ -1847,7 +2005,7 @@ example : (execute gCall [116] [] 4).cls = .ok ∧ (execute gCall [116] [] 4).ch
     intro t ht
     simp only [gCall, List.mem_cons, List.mem_nil_iff, or_false] at ht
     rcases ht with rfl | rfl <;> decide
-  have h := render_refines_lexical_partial noColl gCall rfl hfr (by simp [gCall]) [116] [] (by simp) 4 none false
+  have h := render_refines_lexical_partial noColl gCall rfl hfr (by simp [gCall]) [116] [] (by simp) 4 none false (fun _ => rfl)
   have hs : Spec.Eval.render gCall.reg (absK gCall.globals) none false [116] (absK []) 4 = .val [91, 76, 93, 76] := by rfl
   rw [hs] at h
   exact h
@@ -1874,7 +2032,7 @@ example : (execute gAll [116] [([120], .str [68])] 4).cls = .ok ∧
     intro t ht
     simp only [gAll, List.mem_cons, List.mem_nil_iff, or_false] at ht
     rcases ht with rfl | rfl <;> decide
-  have h := render_refines_lexical_partial noColl gAll rfl hfr (by simp [gAll]) [116] [([120], .str [68])] (by simp [OkAt, Scalar, Shallow]) 4 none false
+  have h := render_refines_lexical_partial noColl gAll rfl hfr (by simp [gAll]) [116] [([120], .str [68])] (by simp [OkAt, Scalar, Shallow]) 4 none false (fun _ => rfl)
   have hs : Spec.Eval.render gAll.reg (absK gAll.globals) none false [116] (absK [([120], .str [68])]) 4 = .val [91, 76, 68, 93] := by rfl
   rw [hs] at h
   exact h
@@ -1905,7 +2063,7 @@ example : (execute gData [116] dataLM 4).cls = .ok ∧
     simp only [gData, List.mem_cons, List.mem_nil_iff, or_false] at ht
     rcases ht with rfl | rfl <;> decide
   have h := render_refines_lexical_partial collLM gData rfl hfr (by simp [gData]) [116] dataLM
-    (by simp [dataLM, OkAt, Scalar, Shallow, collLM]) 4 none false
+    (by simp [dataLM, OkAt, Scalar, Shallow, collLM]) 4 none false (fun _ => rfl)
   have hs : Spec.Eval.render gData.reg (absK gData.globals) none false [116] (absK dataLM) 4 =
       .val [97, 98, 91, 80, 77, 93, 91, 82, 81, 93] := by rfl
   rw [hs] at h
@@ -1933,7 +2091,7 @@ example : bufBytes (execCmd g0 true (fun _ ctx st => ⟨.fuelOut, ctx, st⟩)
     (.forc 1 [121] (.dataRef 1 [108] .nil) (.mk 2 (.cons (.print 2 (.dataRef 2 [121] .nil) []) .nil)) none) ctx0 stL).st.out = [97, 98] := by
   have hcall : ∀ t, GoodRun ((fun _ ctx st => ⟨.fuelOut, ctx, st⟩ : Registry.Tmpl → Run) t) :=
     fun _ ctx st _ => ⟨by simp, fun h => by simp at h, Ext.refl _ _⟩
-  have h := foreach_over_value_refines g0 rfl true _ hcall [] false envL.vars (fun _ _ => .unspec) rfl (fun _ _ _ _ _ _ _ _ => trivial)
+  have h := foreach_over_value_refines g0 rfl true _ hcall [] false envL.vars (fun _ _ => .unspec) rfl (fun _ => rfl) (fun _ _ _ _ _ _ _ _ => trivial)
     1 [121] (.dataRef 1 [108] .nil) 2 (.cons (.print 2 (.dataRef 2 [121] .nil) []) .nil) (by decide) ctx0 stL envL relL
     ⟨⟨1, false⟩, [⟨0, true⟩], ⟨[], false⟩, rfl, rfl, rfl⟩ (by intro f hf; simp [ctx0] at hf; rcases hf with rfl | rfl <;> simp [stL])
     (list_variable_agrees g0 1 [108] rfl ctx0 stL envL 7 [.str [97], .str [98]] (by simp [Scalar]) rfl rfl)
@@ -1958,8 +2116,35 @@ example : (execute gContent [116] [] 4).cls = .ok ∧ (execute gContent [116] []
     intro t ht
     simp only [gContent, List.mem_cons, List.mem_nil_iff, or_false] at ht
     rcases ht with rfl | rfl <;> decide
-  have h := render_refines_lexical_partial noColl gContent rfl hfr (by simp [gContent]) [116] [] (by simp) 4 none false
+  have h := render_refines_lexical_partial noColl gContent rfl hfr (by simp [gContent]) [116] [] (by simp) 4 none false (fun _ => rfl)
   have hs : Spec.Eval.render gContent.reg (absK gContent.globals) none false [116] (absK []) 4 = .val [91, 40, 76, 41, 93] := by rfl
+  rw [hs] at h
+  exact h
+
+/-! ### {msg} without a bundle: `{msg desc=""}H{$x}{plural $n}{case 1}one{default}{$n}s{/plural}{/msg}` on
+    x = 'out', n = 3: "Hout3s" -/
+
+def tMsg : Registry.Tmpl :=
+  { name := [116], params := [],
+    body := .mk 1 (.cons (.msg 2 77 [] [] 3
+        (.text 3 [72] (.ph 4 [88] (.cmd (.print 4 (.dataRef 4 [120] .nil) []))
+          (.plural 5 [78] (.dataRef 5 [110] .nil)
+            (.cons 6 1 7 (.text 7 [111, 110, 101] .nil) .nil) 8
+            (.ph 8 [78] (.cmd (.print 8 (.dataRef 8 [110] .nil) [])) (.text 9 [115] .nil)) .nil)))) .nil),
+    autoescape := .unspecified, nsName := [110], nsAutoescape := .unspecified, pos := 0, file := [102], text := [] }
+
+def gMsg : GEnv := { reg := [tMsg], globals := [], ij := none, msgs := none, tbl := [], oblig := [] }
+
+def dataMsg : Frame := [([120], .str [111, 117, 116]), ([110], .int 3)]
+
+example : (execute gMsg [116] dataMsg 4).cls = .ok ∧ (execute gMsg [116] dataMsg 4).chunks.flatten = [72, 111, 117, 116, 51, 115] := by
+  have hfr : regFrag noColl gMsg.reg := by
+    intro t ht
+    simp only [gMsg, List.mem_cons, List.mem_nil_iff, or_false] at ht
+    subst ht; decide
+  have h := render_refines_lexical_partial noColl gMsg rfl hfr (by simp [gMsg]) [116] dataMsg
+    (by simp [dataMsg, OkAt, Scalar, Shallow]) 4 none false (fun _ => rfl)
+  have hs : Spec.Eval.render gMsg.reg (absK gMsg.globals) none false [116] (absK dataMsg) 4 = .val [72, 111, 117, 116, 51, 115] := by rfl
   rw [hs] at h
   exact h
 
@@ -1972,7 +2157,7 @@ def body2 : Block :=
 example : bufBytes (execBody g0 true (fun _ ctx st => ⟨.fuelOut, ctx, st⟩) body2 ctx0 st0).st.out = [49, 50, 51, 111, 117, 116] := by
   have hcall : ∀ t, GoodRun ((fun _ ctx st => ⟨.fuelOut, ctx, st⟩ : Registry.Tmpl → Run) t) :=
     fun _ ctx st _ => ⟨by simp, fun h => by simp at h, Ext.refl _ _⟩
-  have h := exec_refines_lexical_partial g0 rfl true _ hcall [] false env0.vars (fun _ _ => .unspec) rfl (fun _ _ _ _ _ _ _ _ => trivial) body2 (by decide) ctx0 st0 env0 rel0
+  have h := exec_refines_lexical_partial g0 rfl true _ hcall [] false env0.vars (fun _ _ => .unspec) rfl (fun _ => rfl) (fun _ _ _ _ _ _ _ _ => trivial) body2 (by decide) ctx0 st0 env0 rel0
     ⟨⟨1, false⟩, [⟨0, true⟩], ⟨[], false⟩, rfl, rfl, rfl⟩ (by intro f hf; simp [ctx0] at hf; rcases hf with rfl | rfl <;> simp [st0])
   have hs : Spec.Eval.renderBlock [] false true env0.vars (fun _ _ => .unspec) body2 env0 = .val [49, 50, 51, 111, 117, 116] := by rfl
   rw [hs] at h
